@@ -21,6 +21,13 @@ class Prop(PoolProp):
             return ("starve", seed, victim), chooser_starve(random.Random(seed), victim)
         return PoolProp.gen_chooser(self, rng)
 
+    def cover_cfgs(self, tier):
+        # flow control (result bound 1) and a bounded work queue with a single worker: every reachable transition
+        cfgs = [Cfg(n_workers=1, res_cap=1, work_cap=1, calls=[(2, 1, True)])]
+        if tier == "thorough":
+            cfgs += [Cfg(n_workers=2, res_cap=1, calls=[(2, 1, True)]), Cfg(n_workers=2, factory=True, quota=1, work_cap=1, calls=[(2, 1, True)])]
+        return cfgs
+
     def corpus(self):
         return [(Cfg(n_workers=2, calls=[(2, 1, True)]), ("starve", 1, "F"), chooser_starve(random.Random(1), "F"),
                  "D16: feeder clears the flag after the last result was consumed"),
